@@ -45,6 +45,7 @@ def main():
     ap.add_argument("--tier", default="quick")
     ap.add_argument("--note", default="")
     ap.add_argument("--seed", default="0")
+    ap.add_argument("--keep", action="store_true", help="keep the scratch copies (for inspection)")
     args = ap.parse_args()
     root = "/tmp/ev/%s" % args.id
     wt, vf = root + "/repo", root + "/verif"
@@ -109,8 +110,9 @@ def main():
         print(args.id, "alarms:", meta["alarms"])
         return 0
     finally:
-        sh(["git", "-C", REPO, "worktree", "remove", "--force", wt])
-        shutil.rmtree(root, ignore_errors=True)
+        if not args.keep:
+            sh(["git", "-C", REPO, "worktree", "remove", "--force", wt])
+            shutil.rmtree(root, ignore_errors=True)
 
 
 if __name__ == "__main__":
